@@ -10,6 +10,9 @@
      CustomFunction.__call__
      CurTimestamp.get_function_sql (bare name, no parentheses: a documented exception)
 
+   A sub-query among them is rendered as one parenthesised unit in every position: arguments with subquery=True,
+   and (since the C18 sub-query repair) the FILTER criterion, the PARTITION BY / ORDER BY terms and the field of
+   EXTRACT(.. FROM ..) as well - the harness renders each part alone in exactly that way.
    Arguments, filter criteria, partition and order-by terms are OPAQUE, already rendered texts
    (their own rendering belongs to other properties); the harness takes them from the
    implementation.  What is modelled is everything the wrappers add around them.             *)
